@@ -31,8 +31,8 @@ PREFIX = "undo"
 
 def bound_text(tier):
     n = 4 if tier == "quick" else 5
-    return "%d ACL texts; forests <= %d nodes, depth <= 3 over <=5 rows (+ negated sub-family); all ordered ACL pairs of the core list with forests <= %d nodes" % (
-        len(aclgen.acls(tier)), n, n - 1)
+    return "%d ACL texts; forests <= %d nodes, depth <= 3 over <=5 rows (+ negated sub-family); all ordered ACL pairs of the core list with forests <= %d nodes; seq: for the %d overlap ACLs all ordered pairs of forests (<= %d, <= 3 nodes) on one freshly compiled ACL" % (
+        len(aclgen.acls(tier)), n, n - 1, len([1 for nm, _ in aclgen.acls(tier) if nm.startswith("overlap")]), 2 if tier == "quick" else 3)
 
 
 def setup():
